@@ -17,7 +17,7 @@ import (
 
 // C05 — a diff is empty exactly when the documents are equal; CLI exit 0/1.
 
-var c05OptSets = []string{"list", "set", "mset", "setkeys:id", "merge", "set+merge", "mset+merge"}
+var c05OptSets = []string{"list", "set", "mset", "setkeys:id", "merge", "set+merge", "mset+merge", "set+mset", "mset+set"}
 
 func checkC05(c PairCase, r *rec.Rec) error {
 	av, err := val.Parse(c.A)
@@ -140,6 +140,7 @@ type CLIPairCase struct {
 	Bin   string   `json:"bin"`   // jd-v2 | jd-top
 	Flags []string `json:"flags"` // without file arguments
 	Yaml  bool     `json:"yaml"`
+	Stdin bool     `json:"stdin"` // the second document arrives on standard input
 }
 
 // flagOptions translates CLI flags into library options the way the README
@@ -249,11 +250,17 @@ func checkC05CLI(c CLIPairCase, r *rec.Rec) error {
 	writeFile(dir, "a"+ext, docText(av, c.Yaml))
 	writeFile(dir, "b"+ext, docText(bv, c.Yaml))
 	args := append(append([]string{}, c.Flags...), "a"+ext, "b"+ext)
+	var stdin *string
+	if c.Stdin {
+		args = args[:len(args)-1]
+		text := docText(bv, c.Yaml)
+		stdin = &text
+	}
 	if c.Yaml {
 		args = append([]string{"-yaml"}, args...)
 	}
 	args = append(pre, args...)
-	res := runCLI(bin, args, nil, dir)
+	res := runCLI(bin, args, stdin, dir)
 	if err := cliTrouble(res); err != nil {
 		return err
 	}
@@ -269,12 +276,18 @@ func checkC05CLI(c CLIPairCase, r *rec.Rec) error {
 	if c.Yaml {
 		cls = append(cls, "yaml")
 	}
+	if c.Stdin {
+		cls = append(cls, "stdin")
+	}
+	if len(c.A) > 65536 {
+		cls = append(cls, "line>64KB")
+	}
 	if equal && c.A != c.B {
 		cls = append(cls, "equal-but-texts-differ")
 	} else if !equal {
 		cls = append(cls, "unequal")
 	}
-	r.Case(fmt.Sprintf("%s|%s|%s|%v|%v", c.A, c.B, c.Bin, c.Flags, c.Yaml), c.A != c.B, cls...)
+	r.Case(fmt.Sprintf("%s|%s|%s|%v|%v|%v", c.A, c.B, c.Bin, c.Flags, c.Yaml, c.Stdin), c.A != c.B, cls...)
 	if c.A != c.B {
 		r.Sample(c)
 	}
@@ -283,6 +296,10 @@ func checkC05CLI(c CLIPairCase, r *rec.Rec) error {
 
 func optFlags(opts string) []string {
 	var out []string
+	// The binaries build their option list in a fixed order (set, mset,
+	// setkeys) whatever the order of the flags: MULTISET before SET cannot
+	// be said on the command line.
+	opts = strings.Replace(opts, "mset+set", "set+mset", 1)
 	for _, part := range strings.Split(opts, "+") {
 		switch {
 		case part == "set":
@@ -318,6 +335,16 @@ func genC05CLI(t *rapid.T) CLIPairCase {
 		c.Flags = append(c.Flags, "-color")
 	}
 	c.Yaml = gen.Chance(t, "yaml", 20)
+	c.Stdin = gen.Chance(t, "stdin", 25)
+	if gen.Chance(t, "bigLine", 12) {
+		// both documents get the same long member: equality is unchanged,
+		// every line of the input is longer than 64 KB
+		big := strings.Repeat("long line ", 7000)
+		if av, bv := val.MustParse(c.A), val.MustParse(c.B); !val.IsVoid(av) && !val.IsVoid(bv) {
+			c.A = val.JSON(map[string]val.V{"big": big, "doc": av})
+			c.B = val.JSON(map[string]val.V{"big": big, "doc": bv})
+		}
+	}
 	return c
 }
 
